@@ -169,6 +169,7 @@ class Program:
         self.files: dict[str, str] = {}       # qualified name -> TU file
         self.template_params: dict[str, list[str]] = {}
         self.enums: dict[str, dict[str, int]] = {}
+        self.spec_targs: dict[tuple, list] = {}   # (tu, specialization decl id) -> explicit template argument values
         self.globals_: dict[str, N] = {}
 
     def add_docs(self, docs: list[dict], tu: str):
@@ -206,6 +207,11 @@ class Program:
         if r.k == 'FunctionTemplateDecl':
             params = [c.name for c in r.c if c.k in ('NonTypeTemplateParmDecl', 'TemplateTypeParmDecl')]
             for c in r.c:
+                if c.k in ('CXXMethodDecl', 'FunctionDecl') and 'id' in c:
+                    targs = [x.get('v') for x in c.c if x.k == 'TemplateArgument']
+                    if targs and all(t is not None for t in targs):
+                        self.spec_targs[(tu, c['id'])] = [int(t) != 0 for t in targs]
+            for c in r.c:
                 if c.k in ('CXXMethodDecl', 'FunctionDecl') and _has_body(c):
                     if 'parent' in r and 'parent' not in c:
                         c['parent'] = r['parent']
@@ -223,10 +229,16 @@ class Program:
         if owner is None:
             owner = 'optree' if r.get('mangled', '').startswith('_ZN6optree') else ''
         q = (owner + '::' if owner else '') + r.name
+        targs = [x.get('v') for x in r.c if x.k == 'TemplateArgument']
+        if targs:
+            # explicit instantiation / specialisation: kept under its own name, the pattern keeps the plain name
+            q += '<' + ','.join('true' if (t is not None and int(t) != 0) else 'false' if t is not None else '?' for t in targs) + '>'
         if q in self.functions and self.functions[q].get('line') != r.get('line'):
             # overloads: disambiguate by parameter count
             nparams = sum(1 for c in r.c if c.k == 'ParmVarDecl')
             q = f'{q}/{nparams}'
+        if q not in self.functions:
+            r['tu'] = tu
         self.functions.setdefault(q, r)
         self.files.setdefault(q, tu)
         return q
